@@ -159,6 +159,11 @@ def check_bytes():
     x["b"] = [[1, 2], [3, 4]]
     if x.tobytes() != struct.pack("<iffiff", 1, 1, 2, 2, 3, 4):
         fails.append(_f("tobytes", "structured records are field-by-field per record"))
+    pair = np.dtype([("Track1", "<u4"), ("Track2", "<u4")])
+    if np.array([(1, 2), (3, 4)], dtype=pair).tobytes() != struct.pack("<IIII", 1, 2, 3, 4) or np.array([], dtype=pair).tobytes() != b"":
+        fails.append(_f("array", "a list of tuples is not one record per tuple"))
+    if np.asarray(x) is not x or np.asarray(x, dtype=rec) is not x:
+        fails.append(_f("asarray", "asarray of an array of the dtype asked for is not that array"))
     e = np.empty(3, dtype=np.dtype([("p", "2<f4"), ("q", "<f4")]))
     e[:] = np.nan
     if not (np.isnan(e["p"]).all() and np.isnan(e["q"]).all()):
